@@ -1,5 +1,6 @@
 import WS.Spec.ReadSpec
 import WS.Props.FrameCodec
+import WS.Proofs.Reader
 /-
   C03 — Inbound frame streams decode exactly; violations are rejected.
   Statements about `Model.runReader` / `Model.readStream` (the model of read.go tied to the
@@ -12,55 +13,80 @@ variable (inf : Inflate) (cfg : RCfg) (limits : List Int)
 
 /-- the code's header checks accept exactly the headers RFC 6455 allows. -/
 theorem headerCheck_iff (h : Header) : headerCheck cfg h = none ↔ HeaderOK cfg h := by
-  sorry
+  exact WS.Proofs.Reader.headerCheck_iff cfg h
 
 /-- the first frame that violates a header rule stops reading … -/
 theorem violation_stops (st : RState) (f : Frame) (rest : List Frame) (tl : Tail) (why : Stop)
     (h : headerCheck cfg f.h = some why) :
     runReader inf cfg limits st (f :: rest) tl = stopIn inf cfg limits st why := by
-  sorry
+  rw [runReader, h]
 
 /-- … and stopping never delivers a message: neither the violating frame's data nor anything
 after it is handed out as a complete message. -/
 theorem stopIn_no_msg (st : RState) (why : Stop) :
     ∀ ev ∈ stopIn inf cfg limits st why, isMsg ev = false := by
-  sorry
+  intro ev hev
+  unfold stopIn at hev
+  split at hev
+  all_goals
+    simp only [List.mem_append, List.mem_singleton] at hev
+    rcases hev with hev | hev
+    · exact WS.Proofs.Reader.stopReplies_no_msg why ev hev
+    · subst hev; rfl
 
 /-- a stop always reports a failure to the caller. -/
 theorem stopIn_fails (st : RState) (why : Stop) :
     ∃ ev ∈ stopIn inf cfg limits st why, isFailure ev = true := by
-  sorry
+  unfold stopIn
+  split
+  · exact ⟨_, List.mem_append_right _ (List.mem_singleton.2 rfl), rfl⟩
+  · exact ⟨_, List.mem_append_right _ (List.mem_singleton.2 rfl), rfl⟩
+  · exact ⟨_, List.mem_append_right _ (List.mem_singleton.2 rfl), rfl⟩
 
 /-- protocol violations and limit overruns are answered with the matching Close frame. -/
 theorem stopIn_close_code (st : RState) :
     (.reply opClose (closePayload 1002 []) ∈ stopIn inf cfg limits st .proto) ∧
     (.reply opClose (closePayload 1009 []) ∈ stopIn inf cfg limits st .limit) := by
-  sorry
+  unfold stopIn
+  constructor <;> split <;> simp [stopReplies]
 
 /-- continuation frame with no message in progress. -/
 theorem cont_without_message (st : RState) (f : Frame) (rest : List Frame) (tl : Tail)
     (hm : st.mode = .idle) (hc : headerCheck cfg f.h = none) (ho : f.h.opcode = opCont) :
     runReader inf cfg limits st (f :: rest) tl = stopIn inf cfg limits st .proto := by
-  sorry
+  rw [runReader, hc]
+  simp only [ho, dataStep, hm]
+  simp [opCont, opPing, opPong, opClose]
 
 /-- a new text/binary frame while a message is in progress. -/
 theorem new_message_inside (st : RState) (f : Frame) (rest : List Frame) (tl : Tail)
     (hm : st.mode ≠ .idle) (hc : headerCheck cfg f.h = none)
     (ho : f.h.opcode = opText ∨ f.h.opcode = opBinary) :
     runReader inf cfg limits st (f :: rest) tl = stopIn inf cfg limits st .proto := by
-  sorry
+  rw [runReader, hc]
+  unfold dataStep
+  cases hmode : st.mode with
+  | idle => exact absurd hmode hm
+  | plain typ acc n =>
+    rcases ho with ho | ho <;> simp only [ho] <;>
+      simp [opCont, opPing, opPong, opClose, opText, opBinary]
+  | comp typ z =>
+    rcases ho with ho | ho <;> simp only [ho] <;>
+      simp [opCont, opPing, opPong, opClose, opText, opBinary]
 
 /-- malformed Close payload. -/
 theorem bad_close_payload (st : RState) (f : Frame) (rest : List Frame) (tl : Tail)
     (hc : headerCheck cfg f.h = none) (ho : f.h.opcode = opClose)
     (hp : parseClosePayload f.data = .bad) :
     runReader inf cfg limits st (f :: rest) tl = stopIn inf cfg limits st .proto := by
-  sorry
+  rw [runReader, hc]
+  simp only [ho, hp]
+  simp [opPing, opPong, opClose]
 
 /-- a length with the top bit set is rejected. -/
 theorem negative_length (st : RState) :
     runReader inf cfg limits st [] .negative = stopIn inf cfg limits st .protoNoClose := by
-  sorry
+  rw [runReader]
 
 /-- **valid streams decode exactly**: for every valid uncompressed frame sequence (any
 fragmentation, empty fragments, control frames anywhere) whose messages fit the limit, the
@@ -70,13 +96,13 @@ theorem valid_run (L : Int) (hL : cfg.limit = L) (p : Pending) (dict : Bytes) (i
     runReader inf cfg [] (stateOf L dict idx p) fs tl =
       (specRun p fs).1 ++
         runReader inf cfg [] (stateOf L dict (idx + (fs.filter (fun f => f.h.opcode == opText || f.h.opcode == opBinary)).length) (specRun p fs).2) [] tl := by
-  sorry
+  exact WS.Proofs.Reader.valid_run inf cfg L hL p dict idx fs tl hv
 
 /-- byte-level corollary: a well-formed valid stream decodes to the reference events, then the
 read fails because the transport ended. -/
 theorem valid_stream_decodes (L : Int) (hL : cfg.limit = L) (fs : List Frame)
     (hwf : ∀ f ∈ fs, Frame.WF f) (hv : ValidSeq cfg L none fs) :
     ∃ st, readStream inf cfg [] (encodeAll fs) = (specRun none fs).1 ++ stopIn inf cfg [] st .io := by
-  sorry
+  exact WS.Proofs.Reader.valid_stream_decodes inf cfg L hL fs hwf hv
 
 end WS.Props.C03
